@@ -107,6 +107,9 @@ def setup():
         if post:
             await asyncio.sleep(post)
         out = {"weight": params.get("weight", 1), "unit": params.get("unit", "ops")}
+        if params.get("weight-sequence"):
+            # a runner whose requests differ in weight (the short last bulk of a file, then full bulks of the next one)
+            out["weight"] = params["weight-sequence"][k % len(params["weight-sequence"])]
         uns = params.get("unsuccessful-at")
         if uns is not None and k in uns:
             FIRED.append(("unsuccessful", params.get("task-key"), CLOCK.now))
